@@ -480,6 +480,8 @@ def check_property(pid, tier, seed):
         log(f"UNDECIDED property={pid} reason=" + " ; ".join(dict.fromkeys(reasons))[:2000] + f" ; no failing input found by {property_generators(P)} on the real code")
     else:
         n_ob = sum(len(a["refs"]) + len(a["theorems"]) + len(a["kani"]) for a in alt_reports if not a["failed"] and not a["undecided"] and not a["supporting_failed"])
+        if any(a.get("body_of") for a in P["alternatives"]):
+            n_ob += len(main["contracted"])
         log(f"OK property={pid} tier={tier} obligations={n_ob} verus_wall={main['wall']:.1f}s cache_hit={vr.get('cache_hit')} total={time.time()-t0:.1f}s")
     return rc
 
@@ -554,6 +556,18 @@ def write_evidence(pid, tier, seed, P, vr, alt_reports, holds, violations, known
                     tm = v
         obligations.append({"obligation": r, "backend": "Verus 0.2026.09.13 + Z3", "verdict": "failed" if r in main["failed_clauses"] else ("undecided" if fn in main.get("refused", {}) else "discharged"),
                             "text": main["clauses"].get(r, ""), "fn_smt_ms": (tm or {}).get("ms"), "fn_rlimit": (tm or {}).get("rlimit")})
+    body_sel = None
+    for a in P["alternatives"]:
+        if a["name"] == rep["name"]:
+            body_sel = a.get("body_of")
+    if body_sel:
+        # one obligation per function body: Verus' built-in checks (no overflow, no out-of-range slice / index, no failed unwrap, no reachable
+        # unreachable!(), every library panic condition = shim precondition) discharged for all inputs
+        for fn in sorted(main["contracted"]):
+            if body_sel != "*" and fn not in body_sel:
+                continue
+            verdict = "failed" if fn in main.get("panic_fns", {}) else ("undecided" if (fn in main["failed_fns"] or fn in main.get("refused", {})) else "discharged")
+            obligations.append({"obligation": f"body {fn}: panic-freedom", "backend": "Verus 0.2026.09.13 + Z3", "verdict": verdict})
     for th in rep["theorems"]:
         tm = None
         for k, v in main["fn_times"].items():
